@@ -507,7 +507,7 @@ func genDfrag(emit func(string), tier string, rng *Rng) {
 	thorough := tier == "thorough"
 	n, maxLen := 260, 6000
 	if thorough {
-		n, maxLen = 1200, 30000
+		n, maxLen = 1000, 30000
 	}
 	pool, kinds := fragInputs(rng, n, maxLen)
 	for i, b := range pool {
